@@ -178,6 +178,10 @@ func syncSkel(p *Pkg, fd *ast.FuncDecl) []string {
 }
 
 // c18writeSkeleton writes the skeleton of every function of one source file to <facts dir>/skeletons/<name>.txt.
+// Each function is printed from its alpha-normalised declaration (`normalise`, c07.go; `renumberDecl`, c11.go): the
+// receiver is _r, the parameters _p0, _p1, … by position, the locals _v0, _v1, … by order of declaration among the
+// locals the function's skeleton mentions; fields, methods, constants and packages keep their names. Renaming a
+// receiver, parameter or local leaves the skeleton as it is; a changed lock, channel operation, call or condition does not.
 func c18writeSkeleton(p *Pkg, o *Out, file, name string) {
 	var lines []string
 	found := false
@@ -188,7 +192,10 @@ func c18writeSkeleton(p *Pkg, o *Out, file, name string) {
 		found = true
 		for _, d := range f.Decls {
 			if fd, ok := d.(*ast.FuncDecl); ok {
-				lines = append(lines, syncSkel(p, fd)...)
+				restore := p.normalise(fd)
+				sk := syncSkel(p, fd)
+				restore()
+				lines = append(lines, strings.Split(renumberDecl(strings.Join(sk, "\n")), "\n")...)
 			}
 		}
 	}
@@ -241,12 +248,15 @@ func extractC18(repo string, o *Out) {
 	} else if len(dp.Calls(cp, "recover")) != 1 {
 		o.problem("debug.CatchPanic does not call recover() exactly once")
 	} else {
-		// the task must be called inside run (so that the deferred recover covers it)
-		if len(sp.Calls(fd, "r.Run")) == 1 {
+		// the task must be called inside run (so that the deferred recover covers it); run is read in its
+		// alpha-normalised form (`normalise`, c07.go): the task is its first parameter, _p0, whatever it is called
+		restore := sp.normalise(fd)
+		if len(sp.Calls(fd, "_p0.Run")) == 1 {
 			recovers = true
 		} else {
-			o.problem("ThreadPoolExecutor.run does not call r.Run() exactly once")
+			o.problem("ThreadPoolExecutor.run does not call Run() of its parameter exactly once")
 		}
+		restore()
 	}
 	o.bool("runRecovers", recovers, "sched/executor_threadpool.go run(): `defer debug.CatchPanic()` first, then r.Run(); debug/backtrace.go CatchPanic calls recover()")
 	// NewThreadPoolExecutor: if nworker <= 0 { nworker = K }
@@ -255,13 +265,14 @@ func extractC18(repo string, o *Out) {
 		o.problem("func NewThreadPoolExecutor not found")
 	} else {
 		ok := false
+		restore := sp.normalise(fd) // alpha-normalised: nworker is the first parameter, _p0
 		for _, s := range fd.Body.List {
 			is, isIf := s.(*ast.IfStmt)
-			if !isIf || sp.Src(is.Cond) != "nworker <= 0" || len(is.Body.List) != 1 {
+			if !isIf || sp.Src(is.Cond) != "_p0 <= 0" || len(is.Body.List) != 1 {
 				continue
 			}
 			as, isAs := is.Body.List[0].(*ast.AssignStmt)
-			if !isAs || len(as.Lhs) != 1 || sp.Src(as.Lhs[0]) != "nworker" || len(as.Rhs) != 1 {
+			if !isAs || len(as.Lhs) != 1 || sp.Src(as.Lhs[0]) != "_p0" || len(as.Rhs) != 1 {
 				continue
 			}
 			if v, c := sp.ConstOf(as.Rhs[0]); c {
@@ -269,8 +280,9 @@ func extractC18(repo string, o *Out) {
 				ok = true
 			}
 		}
+		restore()
 		if !ok {
-			o.problem("NewThreadPoolExecutor: pattern `if nworker <= 0 { nworker = K }` not found")
+			o.problem("NewThreadPoolExecutor: pattern `if nworker <= 0 { nworker = K }` (nworker = the first parameter) not found")
 		}
 	}
 	o.nat("minWorkers", minW, "sched/executor_threadpool.go NewThreadPoolExecutor: replacement for nworker <= 0")
